@@ -585,13 +585,13 @@ func lockStates(f *ssa.Function, mu *types.Var, entry int) map[ssa.Instruction]i
 	return out
 }
 
-func ruleGuardedBy(c *Ctx) {
-	p := c.P
-	ci := p.contexts()
-	mu := p.Field("rescache.EventSubscription.mu")
-	if mu == nil {
-		c.undecided("rescache.EventSubscription.mu", "anchor", "-", "not found")
-		return
+// esLockStates: for every function of the cache package, whether the event
+// subscription's mutex is held (1), free (0) or either (2) at each instruction.
+// Tasks handed to Enqueue / enqueueUnlock start with the lock held; the others
+// get the meet over their call sites.
+func (p *Prog) esLockStates(mu *types.Var) map[*ssa.Function]map[ssa.Instruction]int {
+	if p.esStates != nil {
+		return p.esStates
 	}
 	// entry lock state per function: cache tasks start locked; others: meet over call sites
 	entry := map[*ssa.Function]int{}
@@ -678,6 +678,19 @@ func ruleGuardedBy(c *Ctx) {
 			states[f] = lockStates(f, mu, entry[f])
 		}
 	}
+	p.esStates = states
+	return states
+}
+
+func ruleGuardedBy(c *Ctx) {
+	p := c.P
+	ci := p.contexts()
+	mu := p.Field("rescache.EventSubscription.mu")
+	if mu == nil {
+		c.undecided("rescache.EventSubscription.mu", "anchor", "-", "not found")
+		return
+	}
+	states := p.esLockStates(mu)
 	check := func(q string, writesOnly bool) {
 		fld := p.Field(q)
 		if fld == nil {
